@@ -103,6 +103,10 @@ pub async fn handle_notify_get_or_head(
         Err(resp) => return Ok(resp),
     };
 
+    #[cfg(feature = "verif-hooks")]
+    crate::verif::point("notify.before_subscribe", || {
+        if wait { "wait" } else { "nowait" }
+    });
     if wait {
         notify.subscribe().recv().await;
     }
